@@ -1095,9 +1095,23 @@ class Interp:
                 raise
             raise PyRaise(e)
 
+    _DUNDER = {operator.add: ('__add__', '__radd__'), operator.sub: ('__sub__', '__rsub__'), operator.mul: ('__mul__', '__rmul__'),
+               operator.truediv: ('__truediv__', '__rtruediv__'), operator.matmul: ('__matmul__', '__rmatmul__')}
+
     def binop(self, op, a, b, inplace=False):
         if isinstance(a, SObj) or isinstance(b, SObj):
-            raise EngineError("operator on repo object")
+            names = self._DUNDER.get(op)
+            if names is None:
+                raise EngineError("operator on repo object")
+            if isinstance(a, SObj):
+                f = inspect.getattr_static(a.cls, names[0], None)
+                if f is not None:
+                    return self.call(self._as_callable(f), [a, b])
+            if isinstance(b, SObj):
+                f = inspect.getattr_static(b.cls, names[1], None)
+                if f is not None:
+                    return self.call(self._as_callable(f), [b, a])
+            raise PyRaise(TypeError("unsupported operand types for %s" % names[0]))
         if isinstance(a, np.ndarray) and a.dtype != object and contains_sym(b):
             a = obj_array(a)
         if isinstance(b, np.ndarray) and b.dtype != object and contains_sym(a):
@@ -1873,7 +1887,8 @@ def _fft_model(real, inverse):
             return interp.call_real(real, [a, n, axis], k)
         a = np.asarray(a, dtype=object)
         if axis not in (-1, a.ndim - 1):
-            raise EngineError("symbolic FFT only along the last axis")
+            moved = np.moveaxis(a, axis, -1)
+            return np.moveaxis(m(interp, moved, n, -1), -1, axis)
         L = a.shape[-1]
         N = L if n is None else int(n)
         if N < L:
@@ -1893,6 +1908,30 @@ def _fft_model(real, inverse):
     return m
 
 
+def m_np_ceil(interp, x, *a, **k):
+    if isinstance(x, SNum):
+        import z3
+        if x.kind == 'int':
+            return x.to_real()
+        t = x.t
+        fl = z3.ToInt(t)
+        return SNum(z3.ToReal(z3.If(z3.ToReal(fl) == t, fl, fl + 1)), 'real')
+    return interp.call_real(np.ceil, [x] + list(a), k)
+
+
+def m_np_mean(interp, x, axis=None, **k):
+    if not contains_sym(x):
+        return interp.call_real(np.mean, [x], dict(axis=axis, **k))
+    x = np.asarray(x, dtype=object)
+    s = np.sum(x, axis=axis)
+    n = x.size if axis is None else x.shape[axis]
+    if isinstance(s, np.ndarray):
+        return np.frompyfunc(lambda v: v / n, 1, 1)(s)
+    return s / n
+
+
+DEFAULT_MODELS[np.ceil] = m_np_ceil
+DEFAULT_MODELS[np.mean] = m_np_mean
 DEFAULT_MODELS[np.fft.fft] = _fft_model(np.fft.fft, False)
 DEFAULT_MODELS[np.fft.ifft] = _fft_model(np.fft.ifft, True)
 DEFAULT_MODELS[np.linalg.pinv] = m_linalg_pinv
